@@ -48,7 +48,7 @@ CMP = {ast.Lt: "cmp_lt", ast.LtE: "cmp_le", ast.Gt: "cmp_gt", ast.GtE: "cmp_ge",
        ast.NotEq: "cmp_ne", ast.Is: "cmp_eq", ast.IsNot: "cmp_ne", ast.In: "in", ast.NotIn: "notin"}
 
 
-STR_METHODS = {"startswith", "endswith", "lower", "upper", "strip", "replace", "title"}
+STR_METHODS = {"startswith", "endswith", "lower", "upper", "strip", "rstrip", "lstrip", "replace", "title", "capitalize", "isdigit", "isalpha", "count", "find", "removeprefix", "removesuffix"}
 
 
 def _strval(r):
